@@ -68,6 +68,17 @@ def gen_stalls(rng, p=0.3):
     return out
 
 
+def gen_slow_starts(rng, p=0.15):
+    """Fault plan: the k-th thread created during the run (payload threads, executor workers, the
+    trio thread, drivers) gets its first time slice only after a while."""
+    if rng.random() >= p:
+        return []
+    if rng.random() < 0.4:
+        # ... or the first few threads created once a termination trigger has fired (cleanup helpers)
+        return [{"after": True, "count": rng.choice([1, 2, 3]), "dur": rng.choice([0.002, 0.01, 0.05])}]
+    return [{"nth": rng.randint(1, 12), "dur": rng.choice([0.002, 0.01, 0.05, 0.3])} for _ in range(rng.choice([1, 1, 2]))]
+
+
 def liveness_bound(h):
     """Generous bound on 'ends': the scenario's own delays plus 5 s of slack (DESIGN 5)."""
     from .sched import S
